@@ -100,6 +100,22 @@ func Start(id, stage string) *Run {
 	return r
 }
 
+// Work returns the directory for run/ and replays/ (normally the same as Root).
+func Work() string {
+	if r := os.Getenv("VERIF_WORK"); r != "" {
+		return r
+	}
+	return Root()
+}
+
+// Repo returns the golibs tree the harness is built against (normally /repo).
+func Repo() string {
+	if r := os.Getenv("VERIF_REPO"); r != "" {
+		return r
+	}
+	return "/repo"
+}
+
 // Thorough reports whether the thorough tier is selected.
 func (r *Run) Thorough() bool { return r.Tier == "thorough" }
 
@@ -317,7 +333,7 @@ func (r *Run) Violation(sig, desc string, c any) {
 		r.violLimit = true
 		return
 	}
-	dir := filepath.Join(Root(), "replays", r.ID)
+	dir := filepath.Join(Work(), "replays", r.ID)
 	_ = os.MkdirAll(dir, 0o755)
 	name := fmt.Sprintf("%s-%s-%016x.json", r.Stage, r.Tier, Hash(sig))
 	path := filepath.Join(dir, name)
@@ -389,7 +405,7 @@ func (r *Run) Finish() int {
 
 	out := os.Getenv("VERIF_STAGE_OUT")
 	if out == "" {
-		out = filepath.Join(Root(), "run", r.ID, r.Stage+".json")
+		out = filepath.Join(Work(), "run", r.ID, r.Stage+".json")
 	}
 	_ = os.MkdirAll(filepath.Dir(out), 0o755)
 	b, err := json.MarshalIndent(rep, "", " ")
